@@ -75,6 +75,13 @@ class EngineWorld:
         its = list(items.items) if isinstance(items, SBytes) else list(items)
         return SBytes([V.int_to_byte(x) if isinstance(x, (SInt, SBool)) else x for x in its], False)
 
+    def empty_prefix_of(self, data):
+        """an empty bytearray; in the proof world it is represented as the length-0 prefix of `data`'s own array, so that
+        appending data[0:k] keeps it structurally a prefix of data"""
+        if isinstance(data, LBytes):
+            return LBytes(data.arr, data.off, 0, True)
+        return SBytes([], True)
+
     def inttext(self, v, style="0x%X"):
         """the text of integer v in the given spelling ("0x%X" or "%d")"""
         if isinstance(v, int):
@@ -315,6 +322,9 @@ class NativeWorld:
 
     def bytes_of(self, items):
         return bytes(items)
+
+    def empty_prefix_of(self, data):
+        return bytearray()
 
     def inttext(self, v, style="0x%X"):
         return style % v if v >= 0 or style == "%d" else "0x-%X" % -v
